@@ -30,6 +30,12 @@
                           declaration is allowed) and no attribute is in a namespace declared as default
                           namespace on its element or above (noFlag); C15_idem_needs_noRebind /
                           C15_idem_needs_noFlag: each guard alone does not suffice (closed witnesses)
+    C15_representable     the call keeps a tree inside the C01 domain (`Representable`, decidable)
+    C15_reparses_deep_equal   "… to text that reparses deep-equal to the original", FULL strength: whenever
+                          the tree after the call serialises, the text parses back to exactly that tree,
+                          which is deep_equal to the tree before the call (corollary of C01_roundtrip)
+    C15_roundtrip_partial under NoShadowing (the boundary of C15_serialises_false): a representable tree
+                          that serialised before serialises after, and the text reparses deep_equal
 -/
 import XotModel.Lemmas.ScopeDedup
 import XotModel.Lemmas.ScopeKeepNames
@@ -37,19 +43,21 @@ import XotModel.Lemmas.ScopeInner
 import XotModel.Lemmas.ScopeUndecl
 import XotModel.Lemmas.ScopeIdem
 import XotModel.Lemmas.ScopeIdemGuards
+import XotModel.Lemmas.ScopeRoundTrip
+import XotModel.Props.C01
 
 namespace XotModel.Props
 open XotModel
 
 /-- Declarations after ⊆ before, node by node; none added, none altered, order kept. -/
 theorem C15_subset (env : Env) (t t' : Tree) (path : Path)
-    (h : deduplicateNamespaces env t path = some t') : AllSub (declsOf t') (declsOf t) :=
+    (h : deduplicateNamespaces env t path = some t') : AllSub (declsOfTree t') (declsOfTree t) :=
   (NsShrink.deduplicateNamespaces env t t' path h).decls
 
 /-- The node lists compared by `C15_subset` have the same length (they are the same nodes: see
     `C15_frame`). -/
 theorem C15_same_nodes (env : Env) (t t' : Tree) (path : Path)
-    (h : deduplicateNamespaces env t path = some t') : (declsOf t').length = (declsOf t).length :=
+    (h : deduplicateNamespaces env t path = some t') : (declsOfTree t').length = (declsOfTree t).length :=
   (C15_subset env t t' path h).length_eq
 
 /-- Names, attributes and content untouched: only namespace-node children are deleted. -/
@@ -74,8 +82,8 @@ def c15IdemWitness : Tree :=
 theorem C15_idem_false : ¬ C15_idem_statement := by
   intro h
   have key : ((deduplicateNamespaces {} c15IdemWitness []).bind fun t1 =>
-      (deduplicateNamespaces {} t1 []).map declsOf) ≠
-      (deduplicateNamespaces {} c15IdemWitness []).map declsOf := by decide
+      (deduplicateNamespaces {} t1 []).map declsOfTree) ≠
+      (deduplicateNamespaces {} c15IdemWitness []).map declsOfTree := by decide
   apply key
   cases hd : deduplicateNamespaces {} c15IdemWitness [] with
   | none => rfl
@@ -152,14 +160,14 @@ theorem C15_serialises_partial_inner (env : Env) (t t' : Tree) (path : Path)
 /-! ### Undeclarations are never removed -/
 
 /-- For every tree and every call node: node by node (the nodes are the same before and after:
-    `C15_frame`, `C15_same_nodes`; `declsOf` lists the declarations of every non-namespace node in
+    `C15_frame`, `C15_same_nodes`; `declsOfTree` lists the declarations of every non-namespace node in
     raw document order), every binding to the no-namespace id — `xmlns=""`, and `xmlns:p=""`
     which `Xot` accepts — that was there before is there afterwards.
     Hypothesis: no element of the call's subtree declares a prefix twice (the removal loop goes by
     prefix and deletes the FIRST namespace node with that key). -/
 theorem C15_keeps_undeclarations (env : Env) (t t' : Tree) (path : Path) (sub : Tree)
     (hs : t.at? path = some sub) (hu : UniqueDeclsBelow sub)
-    (h : deduplicateNamespaces env t path = some t') : AllKeep (declsOf t') (declsOf t) :=
+    (h : deduplicateNamespaces env t path = some t') : AllKeep (declsOfTree t') (declsOfTree t) :=
   dedup_keeps_undeclarations env t t' path sub hs hu h
 
 /-- `AllKeep` read at the `i`-th node: each pair `(p, no-namespace)` declared there before is
@@ -167,7 +175,7 @@ theorem C15_keeps_undeclarations (env : Env) (t t' : Tree) (path : Path) (sub : 
 theorem C15_keeps_undeclarations_at (env : Env) (t t' : Tree) (path : Path) (sub : Tree)
     (hs : t.at? path = some sub) (hu : UniqueDeclsBelow sub)
     (h : deduplicateNamespaces env t path = some t') (i : Nat) (before after : List (Nat × Nat))
-    (hb : (declsOf t)[i]? = some before) (ha : (declsOf t')[i]? = some after) (p : Nat)
+    (hb : (declsOfTree t)[i]? = some before) (ha : (declsOfTree t')[i]? = some after) (p : Nat)
     (hm : (p, Env.noNamespace) ∈ before) : (p, Env.noNamespace) ∈ after :=
   (C15_keeps_undeclarations env t t' path sub hs hu h).get i after before ha hb _ hm rfl
 
@@ -180,9 +188,9 @@ def c15UndeclWitness : Tree :=
     from `b`, the loop removes "the declaration of `p`", which is `xmlns:p=""`. -/
 theorem C15_keeps_undeclarations_unique_needed :
     ¬ ∀ (env : Env) (t t' : Tree), deduplicateNamespaces env t [] = some t' →
-        AllKeep (declsOf t') (declsOf t) := by
+        AllKeep (declsOfTree t') (declsOfTree t) := by
   intro h
-  have hd : (deduplicateNamespaces {} c15UndeclWitness []).map declsOf = some [[(3, 2)], [(2, 2)]] := by
+  have hd : (deduplicateNamespaces {} c15UndeclWitness []).map declsOfTree = some [[(3, 2)], [(2, 2)]] := by
     decide
   cases hx : deduplicateNamespaces {} c15UndeclWitness [] with
   | none => simp [hx] at hd
@@ -236,8 +244,8 @@ theorem C15_idem_needs_noRebind :
         deduplicateNamespaces env t [] = some t1 → deduplicateNamespaces env t1 [] = some t1 := by
   intro h
   have key : ((deduplicateNamespaces {} c15IdemWitness []).bind fun t1 =>
-      (deduplicateNamespaces {} t1 []).map declsOf) ≠
-      (deduplicateNamespaces {} c15IdemWitness []).map declsOf := by decide
+      (deduplicateNamespaces {} t1 []).map declsOfTree) ≠
+      (deduplicateNamespaces {} c15IdemWitness []).map declsOfTree := by decide
   apply key
   have hf : noFlag {} [] c15IdemWitness := by
     simp [c15IdemWitness, noFlag, noFlag.noFlagList, Tree.attrs, Tree.attributeNodes, Tree.kids,
@@ -262,8 +270,8 @@ theorem C15_idem_needs_noFlag :
         deduplicateNamespaces env t [] = some t1 → deduplicateNamespaces env t1 [] = some t1 := by
   intro h
   have key : ((deduplicateNamespaces c15IdemEnv2 c15IdemWitness2 []).bind fun t1 =>
-      (deduplicateNamespaces c15IdemEnv2 t1 []).map declsOf) ≠
-      (deduplicateNamespaces c15IdemEnv2 c15IdemWitness2 []).map declsOf := by decide
+      (deduplicateNamespaces c15IdemEnv2 t1 []).map declsOfTree) ≠
+      (deduplicateNamespaces c15IdemEnv2 c15IdemWitness2 []).map declsOfTree := by decide
   apply key
   have hg : noShadow [] c15IdemWitness2 := by
     simp [c15IdemWitness2, noShadow, noShadow.noShadowList, nsDecls_node, declsOfKids, Tree.value]
@@ -289,17 +297,17 @@ example : NoShadowing c15PartialWitness := by
 
 example : namesWritable c15PartialEnv c15PartialWitness [] = some true := by decide
 
-example : (deduplicateNamespaces c15PartialEnv c15PartialWitness []).map declsOf =
+example : (deduplicateNamespaces c15PartialEnv c15PartialWitness []).map declsOfTree =
     some [[(0, 2), (2, 3)], [(3, 2)], [], []] := by decide
 
 
 /-- `<a xmlns:p="A"><b xmlns:p="A"/></a>`: the redundant declaration on `b` goes, nothing else. -/
 example : (deduplicateNamespaces {} (.node (.element 0) [.node (.namespace 2 2) [],
-      .node (.element 0) [.node (.namespace 2 2) []]]) []).map declsOf = some [[(2, 2)], []] := by decide
+      .node (.element 0) [.node (.namespace 2 2) []]]) []).map declsOfTree = some [[(2, 2)], []] := by decide
 
 /-- Inner call on `b` (path `[2]`) of `c15PartialWitness`: only `xmlns:r="B"`… stays (B is not
     bound inside `b`'s subtree), and `xmlns:q` stays; the tree is still writable. -/
-example : (deduplicateNamespaces c15PartialEnv c15PartialWitness [2]).map declsOf =
+example : (deduplicateNamespaces c15PartialEnv c15PartialWitness [2]).map declsOfTree =
     some [[(0, 2), (2, 3)], [(3, 2)], [], [(4, 3)]] := by decide
 
 /-- `<a xmlns:p="A"><b><c xmlns:q="A"/><d xmlns=""/></b></a>`, call on `b` (path `[1]`): nothing
@@ -309,9 +317,9 @@ def c15InnerWitness : Tree :=
     .node (.element 0) [.node (.element 0) [.node (.namespace 3 2) []],
       .node (.element 0) [.node (.namespace 0 0) []]]]
 
-example : (deduplicateNamespaces {} c15InnerWitness [1]).map declsOf =
+example : (deduplicateNamespaces {} c15InnerWitness [1]).map declsOfTree =
     some [[(2, 2)], [], [(3, 2)], [(0, 0)]] := by decide
-example : (deduplicateNamespaces {} c15InnerWitness []).map declsOf =
+example : (deduplicateNamespaces {} c15InnerWitness []).map declsOfTree =
     some [[(2, 2)], [], [], [(0, 0)]] := by decide
 example : UniqueDeclsBelow c15InnerWitness := uniqueDeclsB_sound _ (by decide)
 example : NoShadowing c15InnerWitness := by
@@ -341,6 +349,97 @@ example : noRebind [] c15RebindWitness := by
 example : noFlag {} [] c15RebindWitness := by
   simp [c15RebindWitness, noFlag, noFlag.noFlagList, Tree.attrs, Tree.attributeNodes, Tree.kids,
     Tree.value, Value.category]
-example : (deduplicateNamespaces {} c15RebindWitness []).map declsOf = some [[(2, 2)], [], []] := by decide
+example : (deduplicateNamespaces {} c15RebindWitness []).map declsOfTree = some [[(2, 2)], [], []] := by decide
+
+/-! ### "… to text that reparses deep-equal to the original" (corollaries of C01_roundtrip) -/
+
+/-- The call keeps a tree inside the C01 domain: removing namespace nodes keeps every clause of
+    `Representable` (structure, lexical conditions, unique `xml:id`s, one top-level element). -/
+theorem C15_representable (env : Env) (t t' : Tree) (path : Path) (hr : Representable env t = true)
+    (h : deduplicateNamespaces env t path = some t') : Representable env t' = true :=
+  representable_deduplicateNamespaces t t' path hr h
+
+/-- … and the fragment domain (`parse_fragment`). -/
+theorem C15_representable_fragment (env : Env) (t t' : Tree) (path : Path)
+    (hr : RepresentableFragment env t = true) (h : deduplicateNamespaces env t path = some t') :
+    RepresentableFragment env t' = true :=
+  representableFragment_deduplicateNamespaces t t' path hr h
+
+/-- The second half of the sentence at FULL strength (no `NoShadowing`): for a representable document
+    and a call on ANY node, whenever the tree after the call serialises, the text parses back (same
+    `Xot`) to exactly the tree after the call, interning nothing, and that tree is `deep_equal` to the
+    tree BEFORE the call.  What can go wrong is only the first half (`C15_serialises_false`). -/
+theorem C15_reparses_deep_equal (env : Env) (t t' : Tree) (path : Path) (hr : Representable env t = true)
+    (h : deduplicateNamespaces env t path = some t') (s : Str) (hs : toXmlString env t' [] = .ok s) :
+    ∃ p, parseString .document env s = .ok p ∧ p.tree = t' ∧ p.env = env ∧ deepEqual p.tree t = true := by
+  have hr' := C15_representable env t t' path hr h
+  obtain ⟨p, h1, h2, h3, _⟩ := C01_roundtrip_identical env t' hr' s hs
+  refine ⟨p, h1, h2, h3, ?_⟩
+  have ok : ∀ x, Representable env x = true → x.allNodes (nodeOK env) = true := by
+    intro x hx
+    simp only [Representable, Bool.and_eq_true] at hx
+    exact ((representableFragment_iff env x).mp hx.1).2.2.1
+  rw [h2]
+  exact deepEqual_of_stripNs (ok t' hr') (ok t hr) (C15_frame env t t' path h).1
+
+/-- **C15_roundtrip_partial**: the whole sentence under `NoShadowing` (the boundary of the defect
+    `C15_serialises_false`): a representable document every name of which `to_string` could write
+    before `deduplicate_namespaces(node)` — any node — serialises afterwards, and the text parses back
+    to the tree after the call, which is `deep_equal` to the original. -/
+theorem C15_roundtrip_partial (env : Env) (t t' : Tree) (path : Path) (hr : Representable env t = true)
+    (hd : deduplicateNamespaces env t path = some t') (hg : NoShadowing t)
+    (hw : namesWritable env t [] = some true) :
+    ∃ s p, toXmlString env t' [] = .ok s ∧ parseString .document env s = .ok p ∧ p.tree = t' ∧
+      p.env = env ∧ deepEqual p.tree t = true := by
+  have hr' := C15_representable env t t' path hr hd
+  have hw' := C15_serialises_partial_inner env t t' path hd hg hw
+  have hfrag : RepresentableFragment env t' = true := by
+    simp only [Representable, Bool.and_eq_true] at hr'; exact hr'.1
+  obtain ⟨s, hs⟩ := (C01_serialises env t' hfrag).mpr hw'
+  obtain ⟨p, h1, h2, h3, h4⟩ := C15_reparses_deep_equal env t t' path hr hd s hs
+  exact ⟨s, p, hs, h1, h2, h3, h4⟩
+
+/-- With "serialised before" as the property words it (`to_string` returned a text). -/
+theorem C15_roundtrip_partial_text (env : Env) (t t' : Tree) (path : Path) (hr : Representable env t = true)
+    (hd : deduplicateNamespaces env t path = some t') (hg : NoShadowing t) (s0 : Str)
+    (hs0 : toXmlString env t [] = .ok s0) :
+    ∃ s p, toXmlString env t' [] = .ok s ∧ parseString .document env s = .ok p ∧ p.tree = t' ∧
+      p.env = env ∧ deepEqual p.tree t = true := by
+  have hfrag : RepresentableFragment env t = true := by
+    simp only [Representable, Bool.and_eq_true] at hr; exact hr.1
+  exact C15_roundtrip_partial env t t' path hr hd hg ((C01_serialises env t hfrag).mp ⟨s0, hs0⟩)
+
+/-- Non-vacuity, closed: `<r xmlns="urn:a" xmlns:p="urn:b"><p:c xmlns:q="urn:b"/></r>` — `xmlns:q` is
+    redundant and removed; the hypotheses hold, the result serialises to
+    `<r xmlns="urn:a" xmlns:p="urn:b"><p:c/></r>`. -/
+def c15RtEnv : Env where
+  namespaces := [[], xmlNamespaceUri, ['u', 'r', 'n', ':', 'a'], ['u', 'r', 'n', ':', 'b']]
+  prefixes := [[], ['x', 'm', 'l'], ['p'], ['q']]
+  names := [(['s', 'p', 'a', 'c', 'e'], 1), (['i', 'd'], 1), (['r'], 2), (['c'], 3)]
+
+def c15RtDoc : Tree :=
+  .node .document [.node (.element 2) [.node (.namespace 0 2) [], .node (.namespace 2 3) [],
+    .node (.element 3) [.node (.namespace 3 3) []]]]
+
+example : Representable c15RtEnv c15RtDoc = true ∧ namesWritable c15RtEnv c15RtDoc [] = some true ∧
+    (deduplicateNamespaces c15RtEnv c15RtDoc []).map (fun t' => (declsOfTree t', toXmlString c15RtEnv t' [])) =
+      some ([[], [(0, 2), (2, 3)], []],
+        .ok "<r xmlns=\"urn:a\" xmlns:p=\"urn:b\"><p:c/></r>".toList) := by decide
+
+theorem C15_rt_witness_noShadowing : NoShadowing c15RtDoc := by
+  simp [NoShadowing, c15RtDoc, noShadow, noShadow.noShadowList, nsDecls_node, declsOfKids,
+    Tree.value, Env.xmlPrefix]
+
+example : ∃ t' s p, deduplicateNamespaces c15RtEnv c15RtDoc [] = some t' ∧
+    toXmlString c15RtEnv t' [] = .ok s ∧ parseString .document c15RtEnv s = .ok p ∧ p.tree = t' ∧
+    deepEqual p.tree c15RtDoc = true := by
+  cases hd : deduplicateNamespaces c15RtEnv c15RtDoc [] with
+  | none =>
+    have : (deduplicateNamespaces c15RtEnv c15RtDoc []).isSome = true := by decide
+    rw [hd] at this; cases this
+  | some t' =>
+    obtain ⟨s, p, h1, h2, h3, _, h5⟩ := C15_roundtrip_partial c15RtEnv c15RtDoc t' [] (by decide) hd
+      C15_rt_witness_noShadowing (by decide)
+    exact ⟨t', s, p, rfl, h1, h2, h3, h5⟩
 
 end XotModel.Props
